@@ -1,20 +1,36 @@
 """C26 - the fast Motor device commands exactly its limited control law.
 
-The real `Motor.program` is generated inside a real `FastSyncGroup` over
-hand-faked terminals (EL7041-style: 16-bit 'h' velocity output, enable bit,
-switch bits, 'i' step counter; optionally a second EL5042-style terminal with a
-'q' position).  Only the group program runs (in the interpreter, a subset also
-in the kernel), once per input vector; inputs are planted as bytes (array map
-for DeviceVars, frame for TerminalVars), the velocity output is read back from
-the frame and compared with the reference law written from the statement.
+The real `Motor.program` is generated inside a real `FastSyncGroup` over the
+bundled terminal classes a Motor can be linked to with a 16-bit velocity
+output - EL7041 (one channel, own 'i' step counter), EL7332 channel 1 and
+channel 2 (Struct channels, no encoder of their own) - with the encoder of the
+bundled EL5042 (two Struct channels, 'q' position) where the law needs one,
+each faked by hand like ethercat_test does (position, PDO table, sizes).  Only
+the group program runs (in the interpreter, a subset also in the kernel), once
+per input vector.
+
+Where the inputs and outputs are is NOT taken from the library's allocation
+(`pdo_assign`, `PacketVar.fmt_addr`): the assembled frame of the group is
+parsed (mc/ecparse.py) and a terminal's process data are the data of the
+datagram the terminal itself would react to - FPRD / FPWR addressed to its
+position and sync-manager address when it is used without FMMU, otherwise the
+part of the LRD / LWR datagram at the logical address its FMMU is programmed to
+(`fmmu_maps`, what `map_fmmu` sends to the terminal) - and a PDO entry is
+found in there through the terminal's PDO table (written here, from the
+terminals' documented mapping) with the CoE index of the Motor's channel
+computed here.  Inputs are planted at those places (the other channels, the
+other terminals and all unused bits get different "decoy" values), the velocity
+output is read back from the channel's velocity word and compared with the
+reference law written from the statement, and every byte of the frame's
+output data that is not the Motor's own velocity word / enable bit must be
+unchanged.
 """
 import struct
 
-from mc import bpfvm, core, fastsim, kern
-from ebpfcat.devices import Motor
-from ebpfcat.ebpfcat import EBPFTerminal, ProcessDesc
+from mc import bpfvm, core, ecparse, fastsim, kern
+from ebpfcat.devices import AnalogInput, DigitalInput, Motor
 from ebpfcat.ethercat import SyncManager
-from ebpfcat.terminals import EL7041
+from ebpfcat.terminals import EK1814, EL4104, EL5042, EL7041, EL7332
 
 PROP = "C26"
 LEVEL = "model_checking"
@@ -23,13 +39,23 @@ RULE = ("full product of boundary alphabets for velocity limit x previous "
         "each the distances target-position that put the desired velocity "
         "on / just below / just above every threshold of the reference law "
         "(acceleration window, velocity limit, zero, 16/32/64-bit edges), each "
-        "realised by several (target, position) pairs; every vector runs the "
-        "real generated Motor bytecode; non-trivial = inside the statement's "
+        "realised by several (target, position) pairs, on EL7041 (own step "
+        "counter, FMMU) and EL7041 + EL5042 (directly addressed); the same "
+        "enumeration with a reduced alphabet on the matrix {EL7041, EL7041 + "
+        "EL5042, EL7332 channel 1, EL7332 channel 2, one Motor per EL7332 "
+        "channel in one group} x {FMMU, direct, motor terminal direct and "
+        "encoder by FMMU} x {alone, another terminal before, behind, both}; "
+        "every vector runs the real generated Motor bytecode; inputs and "
+        "outputs are located by parsing the datagrams of the assembled frame "
+        "and the terminal's PDO table, not through the library's allocation; "
+        "all other channels / terminals carry decoy values and every other "
+        "output byte must be unchanged; non-trivial = inside the statement's "
         "preconditions")
 
 KF_WRAP = "C26-int16-wrap-before-velocity-clamp"
 I64 = (-(1 << 63), (1 << 63) - 1)
 U32 = (1 << 32) - 1
+IN, OUT = SyncManager.IN, SyncManager.OUT
 
 
 def sx(v, bits):
@@ -67,74 +93,298 @@ def consequences(out, A, V, W, lo, hi):
     return bad
 
 
-# ------------------------------------------------------------ the rig
-class _Enc(EBPFTerminal):
-    value = ProcessDesc(0x6000, 0x11, "q")
+# ------------------------------------------------------------ the terminals
+# PDO tables as parse_pdos would read them from the terminals (default
+# mapping): (index, subindex) -> (sync manager, byte offset, bit | format).
+# Written here, independent of the ProcessDesc attributes of the classes.
+def pdos_el7041():
+    return {
+        (0x7010, 1): (OUT, 0, 0),       # enable
+        (0x7010, 2): (OUT, 0, 1),       # reset
+        (0x7010, 3): (OUT, 0, 2),       # reduced current
+        (0x7010, 0x21): (OUT, 2, "H"),  # velocity
+        (0x6010, 1): (IN, 0, 0),
+        (0x6010, 2): (IN, 0, 1),
+        (0x6010, 4): (IN, 0, 3),
+        (0x6010, 0xc): (IN, 1, 3),      # digital input 1
+        (0x6010, 0xd): (IN, 1, 4),      # digital input 2
+        (0x6000, 0x11): (IN, 2, "I"),   # counter value
+    }
+
+
+def pdos_el7332():
+    p = {}
+    for ch in range(2):
+        o = 0x10 * ch
+        p.update({
+            (0x6020 + o, 5): (IN, 2 * ch, 4),          # moving positive
+            (0x6020 + o, 6): (IN, 2 * ch, 5),          # moving negative
+            (0x6020 + o, 0xc): (IN, 2 * ch + 1, 3),    # digital input 1
+            (0x6020 + o, 0xd): (IN, 2 * ch + 1, 4),    # digital input 2
+            (0x7020 + o, 1): (OUT, 4 * ch, 0),         # enable
+            (0x7020 + o, 0x21): (OUT, 4 * ch + 2, "H"),  # velocity
+        })
+    return p
+
+
+def pdos_el5042():
+    p = {}
+    for ch in range(2):
+        o = 0x10 * ch
+        p.update({
+            (0x6000 + o, 1): (IN, 10 * ch, 0),
+            (0x6000 + o, 2): (IN, 10 * ch, 1),
+            (0x6000 + o, 0xE): (IN, 10 * ch + 1, 5),
+            (0x6000 + o, 0x11): (IN, 10 * ch + 2, "Q"),   # position
+        })
+    return p
+
+
+def pdos_el4104():
+    return {(0x7000 + 0x10 * k, 1): (OUT, 2 * k, "H") for k in range(4)}
+
+
+def pdos_ek1814():
+    p = {(0x6000 + 0x10 * k, 1): (IN, 0, k) for k in range(4)}
+    p.update({(0x7080 + 0x10 * k, 1): (OUT, 0, k) for k in range(4)})
+    return p
+
+
+# what a Motor channel is made of, by CoE index (the documented meaning of
+# the objects; channel n of a multi-channel terminal is 0x10 * (n - 1)
+# further up): name -> (index, subindex, format the law reads it in | None)
+def channel_objects(kind, ch):
+    if kind == "el7041":
+        return dict(velocity=(0x7010, 0x21, "h"), enable=(0x7010, 1, None),
+                    high=(0x6010, 0xc, None), low=(0x6010, 0xd, None),
+                    encoder=(0x6000, 0x11, "i"))
+    o = 0x10 * (ch - 1)
+    return dict(velocity=(0x7020 + o, 0x21, "h"), enable=(0x7020 + o, 1, None),
+                low=(0x6020 + o, 0xc, None), high=(0x6020 + o, 0xd, None),
+                encoder=None)
+
+
+def encoder_object(ch):
+    return (0x6000 + 0x10 * (ch - 1), 0x11, "q")
+
+
+# ------------------------------------------------------------ configurations
+def _spec(motor, channels, enc, mfmmu, efmmu, neigh):
+    return dict(motor=motor, channels=tuple(channels), enc=enc,
+                mfmmu=mfmmu, efmmu=efmmu, neigh=neigh)
+
+
+# the two configurations that get the full alphabets (and the two further
+# addressing variants of the thorough tier), under their historic names
+MAIN = {
+    "el7041-i-fmmu": _spec("el7041", (1,), "own", True, True, "none"),
+    "el7041+enc-q-direct": _spec("el7041", (1,), "el5042", False, False,
+                                 "none"),
+    "el7041-i-direct": _spec("el7041", (1,), "own", False, False, "none"),
+    "el7041+enc-q-fmmu": _spec("el7041", (1,), "el5042", True, True, "none"),
+}
+
+
+def matrix_configs():
+    out = {}
+    for motor, chs, enc in (("el7041", (1,), "own"),
+                            ("el7041", (1,), "el5042"),
+                            ("el7332", (1,), "el5042"),
+                            ("el7332", (2,), "el5042"),
+                            ("el7332", (1, 2), "el5042")):
+        for addr, (mf, ef) in (("fmmu", (True, True)),
+                               ("direct", (False, False)),
+                               ("mixed", (False, True))):
+            if addr == "mixed" and enc == "own":
+                continue
+            for neigh in ("none", "before", "behind", "both"):
+                name = (f"{motor}.ch{''.join(map(str, chs))}"
+                        f"{'+el5042' if enc != 'own' else ''}"
+                        f"|{addr}|{neigh}")
+                out[name] = _spec(motor, chs, enc, mf, ef, neigh)
+    return out
+
+
+CONFIGS = dict(MAIN)
+CONFIGS.update(matrix_configs())
+
+
+class LayoutProblem(Exception):
+    """the process data of a terminal are in no datagram of the frame"""
+
+
+def locate(sg, dgs, t, sm):
+    """frame position (Ethernet frame) of the first byte of terminal t's
+    process data of sync manager sm, from the datagrams of the assembled
+    frame: what the terminal itself would read / fill in"""
+    size = t.pdo_in_sz if sm is IN else t.pdo_out_sz
+    if t.use_fmmu:
+        try:
+            logical = sg.fmmu_maps[t][sm]
+        except KeyError:
+            raise LayoutProblem(
+                f"terminal at position {t.position}: no logical address for "
+                f"its {sm.name} sync manager") from None
+        cmds = (ecparse.LRD, ecparse.LRW) if sm is IN \
+            else (ecparse.LWR, ecparse.LRW)
+        for d in dgs:
+            if d.cmd in cmds and d.addr <= logical \
+                    and logical + size <= d.addr + d.length:
+                return fastsim.ETH + d.data_pos + logical - d.addr
+        raise LayoutProblem(
+            f"terminal at position {t.position}: no logical datagram covers "
+            f"{logical:#x}..+{size} ({sm.name})")
+    off = t.pdo_in_off if sm is IN else t.pdo_out_off
+    cmds = (ecparse.FPRD, ecparse.FPRW) if sm is IN \
+        else (ecparse.FPWR, ecparse.FPRW)
+    for d in dgs:
+        if d.cmd in cmds and d.adp == t.position and d.ado == off \
+                and d.length >= size:
+            return fastsim.ETH + d.data_pos
+    raise LayoutProblem(
+        f"terminal at position {t.position}: no datagram addressed to its "
+        f"{sm.name} sync manager at {off:#x}")
+
+
+class Field:
+    """one PDO entry in the frame: byte position, bit number or format"""
+    __slots__ = ("pos", "bit", "fmt")
+
+    def __init__(self, base, table, index, subindex, fmt):
+        sm, off, size = table[index, subindex]
+        self.pos = base[sm] + off
+        self.bit = size if isinstance(size, int) else None
+        self.fmt = fmt if fmt is not None else \
+            (None if isinstance(size, int) else size)
+
+    def put(self, f, v):
+        if self.bit is not None:
+            if v:
+                f[self.pos] |= 1 << self.bit
+            else:
+                f[self.pos] &= ~(1 << self.bit) & 0xff
+        else:
+            struct.pack_into("<" + self.fmt, f, self.pos, v)
+
+    def get(self, f):
+        if self.bit is not None:
+            return (f[self.pos] >> self.bit) & 1
+        return struct.unpack_from("<" + self.fmt, f, self.pos)[0]
 
 
 class Rig:
-    """one terminal configuration with the real Motor program"""
-    CONFIGS = {
-        # name: (encoder format, second terminal?, use_fmmu)
-        "el7041-i-fmmu": ("i", False, True),
-        "el7041+enc-q-direct": ("q", True, False),
-        "el7041-i-direct": ("i", False, False),
-        "el7041+enc-q-fmmu": ("q", True, True),
-    }
+    """one terminal configuration with the real Motor program(s)"""
 
     def __init__(self, name, kernel):
         self.name = name
-        self.encfmt, second, fmmu = self.CONFIGS[name]
+        spec = self.spec = CONFIGS[name]
         self.kernel = kernel
         ec = fastsim.new_ec()
-        pdos = {
-            (0x7010, 1): (SyncManager.OUT, 0, 0),       # enable
-            (0x7010, 2): (SyncManager.OUT, 0, 1),       # reset
-            (0x7010, 3): (SyncManager.OUT, 0, 2),       # reduced current
-            (0x7010, 0x21): (SyncManager.OUT, 2, "H"),  # velocity ('h' by
-                                                        # the class's override)
-            (0x6010, 1): (SyncManager.IN, 0, 0),
-            (0x6010, 2): (SyncManager.IN, 0, 1),
-            (0x6010, 4): (SyncManager.IN, 0, 3),
-            (0x6010, 0xc): (SyncManager.IN, 1, 3),      # high switch
-            (0x6010, 0xd): (SyncManager.IN, 1, 4),      # low switch
-            (0x6000, 0x11): (SyncManager.IN, 2, "I"),   # step counter ('i')
-        }
-        t = fastsim.fake_terminal(ec, EL7041, 3, 6, 4, fmmu, pdos)
-        m = self.motor = Motor()
-        m.velocity = t.velocity
-        m.low_switch = t.low_switch
-        m.high_switch = t.high_switch
-        m.enable = t.enable
-        if second:
-            t2 = fastsim.fake_terminal(
-                ec, _Enc, 7, 10, 0, fmmu,
-                {(0x6000, 0x11): (SyncManager.IN, 2, "Q")},
-                in_off=0x1200)
-            m.encoder = t2.value
+        before = spec["neigh"] in ("before", "both")
+        behind = spec["neigh"] in ("behind", "both")
+        mpos, epos = (6, 2) if before else (3, 7)
+        devices, self.terms = [], []
+
+        def add(cls, pos, isz, osz, fmmu, pdos, ioff, ooff):
+            t = fastsim.fake_terminal(ec, cls, pos, isz, osz, fmmu, pdos,
+                                      in_off=ioff, out_off=ooff)
+            self.terms.append(t)
+            return t
+        if spec["motor"] == "el7041":
+            tm = add(EL7041, mpos, 6, 4, spec["mfmmu"], pdos_el7041(),
+                     0x1180, 0x1100)
+            chans = {1: tm}
+            nch = 1
         else:
-            m.encoder = t.stepcounter
-        if t.velocity.size != "h":
-            raise core.Internal("the velocity output is not the 16-bit 'h' "
-                                "the statement is about")
-        # the position is read in whatever format the encoder variable
-        # declares (i / q on the bundled terminals)
-        self.encfmt = m.__dict__["encoder"].size
-        g = self.group = fastsim.FastGroup([m], ec, kernel, index=9)
-        pv = m.__dict__
-        self.vel_pos = pv["velocity"].fmt_addr(m)[1]
-        self.enc_pos = pv["encoder"].fmt_addr(m)[1]
-        (lbit, _), self.low_pos = pv["low_switch"].fmt_addr(m)
-        (hbit, _), self.high_pos = pv["high_switch"].fmt_addr(m)
-        (ebit, _), self.en_pos = pv["enable"].fmt_addr(m)
-        self.lbit, self.hbit, self.ebit = lbit, hbit, ebit
+            tm = add(EL7332, mpos, 4, 8, spec["mfmmu"], pdos_el7332(),
+                     0x1180, 0x1100)
+            chans = {1: tm.channel1, 2: tm.channel2}
+            nch = 2
+        te = None
+        if spec["enc"] == "el5042":
+            te = add(EL5042, epos, 20, 0, spec["efmmu"], pdos_el5042(),
+                     0x1000, 0)
+            encs = {1: te.channel1, 2: te.channel2}
+        self.motors = []
+        for ch in spec["channels"]:
+            m = Motor()
+            c = chans[ch]
+            m.velocity = c.velocity
+            m.low_switch = c.low_switch
+            m.high_switch = c.high_switch
+            m.enable = c.enable
+            m.encoder = encs[ch].position if te is not None \
+                else tm.stepcounter
+            if m.__dict__["velocity"].size != "h":
+                raise core.Internal("the velocity output is not the 16-bit "
+                                    "'h' the statement is about")
+            self.motors.append(m)
+            devices.append(m)
+        # the other terminals of the group: read only by their devices, so
+        # whatever changes in their outputs was done by somebody else
+        if before:
+            tb = add(EL4104, 1, 0, 8, spec["mfmmu"], pdos_el4104(),
+                     0, 0x1800)
+            devices.insert(0, AnalogInput(tb.ch2_value))
+        if behind:
+            ta = add(EK1814, 9, 1, 1, spec["efmmu"], pdos_ek1814(),
+                     0x1001, 0x0f00)
+            devices.append(DigitalInput(ta.channel2))
+            devices.append(DigitalInput(ta.channel6))
+        g = self.group = fastsim.FastGroup(devices, ec, kernel, index=9)
         self.template = bytearray(fastsim.ETH_HEADER + g.sterile)
-        self.fd = None
-        self.rgroup = None
+        # ---- where things are, from the frame itself
+        try:
+            _, dgs = ecparse.parse(g.assembled)
+        except ecparse.ParseError as e:
+            raise LayoutProblem(f"the group's frame does not parse: {e}")
+        self.areas = {}          # (terminal number, sm) -> (start, size)
+        bases = {}
+        for n, t in enumerate(self.terms):
+            b = {}
+            for sm, size in ((IN, t.pdo_in_sz), (OUT, t.pdo_out_sz)):
+                if size:
+                    b[sm] = locate(g.sg, dgs, t, sm)
+                    self.areas[n, sm] = (b[sm], size)
+            bases[t] = b
+        self.out_bytes = set()
+        for (n, sm), (s, size) in self.areas.items():
+            if sm is OUT:
+                self.out_bytes.update(range(s, s + size))
+        # command and working counter of the write datagrams (activate)
+        self.activate_bytes = set()
+        for d in dgs[1:]:
+            if d.cmd in (ecparse.FPWR, ecparse.LWR, ecparse.FPRW,
+                         ecparse.LRW):
+                self.activate_bytes.update(
+                    fastsim.ETH + p for p in
+                    (d.hdr_pos, d.wkc_pos, d.wkc_pos + 1))
+        kind = spec["motor"]
+
+        def chan(ch):
+            objs = channel_objects(kind, ch)
+            f = {k: Field(bases[tm], tm.pdos, *objs[k])
+                 for k in ("velocity", "enable", "low", "high")}
+            if objs["encoder"] is not None and te is None:
+                f["encoder"] = Field(bases[tm], tm.pdos, *objs["encoder"])
+            elif te is not None:
+                f["encoder"] = Field(bases[te], te.pdos, *encoder_object(ch))
+            return f
+        self.chan = {ch: chan(ch) for ch in range(1, nch + 1)}
+        self.enc_only = {}       # encoder channels no motor channel has
+        if te is not None:
+            for ch in (1, 2):
+                if ch not in self.chan:
+                    self.enc_only[ch] = Field(bases[te], te.pdos,
+                                              *encoder_object(ch))
+        self.encfmt = self.chan[spec["channels"][0]]["encoder"].fmt
+        # the historic attributes (first motor)
+        self.motor = self.motors[0]
+        self.rrig = None
         # first instruction of the device code = first access after activate;
         # everything from the first load of set_enable on is Motor.program
         self.motor_start = None
-        off = m.__dict__["set_enable"]
+        off = self.motor.__dict__["set_enable"]
         for n, ins in enumerate(g.insns):
             if ins and ins[0] == 0x61 and ins[2] == 7 and ins[3] == off:
                 self.motor_start = n
@@ -148,27 +398,46 @@ class Rig:
             return -(1 << (bits - 1)), (1 << (bits - 1)) - 1
         return 0, (1 << bits) - 1
 
-    def plant(self, group, motor, vec):
-        G, T, P, A, V, W, lo, hi, en = vec
+    def plant(self, group, motors, vecs):
+        """frame with the inputs of vecs[i] at the channel of motor i;
+        every other channel, terminal and bit carries something else"""
         area = group.area
         area[:len(self.group.area)] = bytes(len(self.group.area))
         group.set_wkc_errors(1)
-        for name, val in (("proportional", G), ("target", T),
-                          ("max_acceleration", A), ("max_velocity", V),
-                          ("set_enable", en)):
-            struct.pack_into("<I", area, motor.__dict__[name], val)
         f = bytearray(self.template)
-        struct.pack_into("<h", f, self.vel_pos, W)
-        struct.pack_into("<" + self.encfmt, f, self.enc_pos, P)
-        if lo:
-            f[self.low_pos] |= 1 << self.lbit
-        if hi:
-            f[self.high_pos] |= 1 << self.hbit
+        for (n, sm), (s, size) in sorted(
+                self.areas.items(), key=lambda kv: kv[1]):
+            for i in range(size):
+                f[s + i] = ((0xa5 if sm is OUT else 0x3c) + 37 * i
+                            + 11 * n) & 0xff
+        G, T, P, A, V, W, lo, hi, en = vecs[0]
+        elo, ehi = self.enc_range()
+        # decoys first: all channels, derived from the first vector
+        for ch, c in self.chan.items():
+            c["velocity"].put(f, sx(W ^ 0x5a5a, 16))
+            c["low"].put(f, 1 - lo)
+            c["high"].put(f, 1 - hi)
+            c["enable"].put(f, 1 - (en & 1))
+            if "encoder" in c:
+                c["encoder"].put(f, P ^ 0x0f0f0f0f)
+        for ch, e in self.enc_only.items():
+            e.put(f, P ^ 0x0f0f0f0f)
+        for m, ch, vec in zip(motors, self.spec["channels"], vecs):
+            G, T, P, A, V, W, lo, hi, en = vec
+            for name, val in (("proportional", G), ("target", T),
+                              ("max_acceleration", A), ("max_velocity", V),
+                              ("set_enable", en)):
+                struct.pack_into("<I", area, m.__dict__[name], val)
+            c = self.chan[ch]
+            c["velocity"].put(f, W)
+            c["encoder"].put(f, P)
+            c["low"].put(f, lo)
+            c["high"].put(f, hi)
         return f
 
-    def run(self, vec, trace=False):
-        """-> (out velocity, frame before, frame after, path)"""
-        f0 = self.plant(self.group, self.motor, vec)
+    def run(self, vecs, trace=False):
+        """-> (out velocities, frame before, frame after, path)"""
+        f0 = self.plant(self.group, self.motors, vecs)
         f = bytearray(f0)
         vm = bpfvm.VM(self.kernel, self.group.insns, f)
         if trace:
@@ -176,11 +445,53 @@ class Rig:
         vm.run()
         if vm.retval != bpfvm.XDP_TX:
             raise bpfvm.Trap(f"group program returned {vm.retval}")
-        out = struct.unpack_from("<h", f, self.vel_pos)[0]
+        outs = [self.chan[ch]["velocity"].get(f)
+                for ch in self.spec["channels"]]
         path = None
         if trace:
             path = tuple(pc for pc in vm.trace_pcs if pc >= self.motor_start)
-        return out, f0, f, path
+        return outs, f0, f, path
+
+    def _masks(self):
+        """little-endian bit masks over the frame: output data that is not a
+        Motor's own velocity word / enable bit; everything else that is
+        neither a Motor's own nor rewritten by activate"""
+        n = len(self.template)
+        own = bytearray(n)
+        for ch in self.spec["channels"]:
+            c = self.chan[ch]
+            own[c["velocity"].pos] = own[c["velocity"].pos + 1] = 0xff
+            own[c["enable"].pos] |= 1 << c["enable"].bit
+        out, other = bytearray(n), bytearray(n)
+        for i in range(n):
+            if i in self.out_bytes:
+                out[i] = 0xff & ~own[i]
+            elif i not in self.activate_bytes:
+                other[i] = 0xff & ~own[i]
+        self._out_mask = int.from_bytes(out, "little")
+        self._other_mask = int.from_bytes(other, "little")
+
+    def foreign_changes(self, f0, f1):
+        """bytes of the frame's output data that changed and are not the
+        velocity word / the enable bit of a Motor's channel; and the other
+        changed bytes (inputs, padding) apart from what activate rewrites"""
+        if not hasattr(self, "_out_mask"):
+            self._masks()
+        d = int.from_bytes(f0, "little") ^ int.from_bytes(f1, "little")
+
+        def positions(x):
+            b = x.to_bytes(len(f0), "little")
+            return [i for i in range(len(b)) if b[i]]
+        o, x = d & self._out_mask, d & self._other_mask
+        return (positions(o) if o else []), (positions(x) if x else [])
+
+    def where(self, i):
+        for (n, sm), (s, size) in self.areas.items():
+            if s <= i < s + size:
+                t = self.terms[n]
+                return (f"byte {i - s} of the {sm.name} data of "
+                        f"{type(t).__name__} at position {t.position}")
+        return f"frame byte {i}"
 
     # -- real kernel
     def load_real(self):
@@ -189,9 +500,9 @@ class Rig:
         self.rrig = r
         return r
 
-    def run_real(self, vec):
+    def run_real(self, vecs):
         r = self.rrig
-        f0 = r.plant(r.group, r.motor, vec)
+        f0 = r.plant(r.group, r.motors, vecs)
         ret, out = kern.test_run(r.group.prog_fd, f0)
         return ret, bytes(out)
 
@@ -225,6 +536,22 @@ def alphabets(ctx):
     return dedupe(Vs), dedupe(As), dedupe(Gs), sw
 
 
+def matrix_alphabets(ctx):
+    """the reduced alphabet of the configuration matrix"""
+    import random
+    rnd = random.Random(ctx.seed * 7919 + 2626)
+    sw = [(0, 0, 1), (1, 0, 1), (0, 1, 0), (1, 1, 1)]
+    if ctx.quick:
+        Vs, As, Gs = [1000, 32767], [1, 2000], [1, 3]
+    else:
+        Vs, As, Gs = [1, 1000, 32767], [0, 1, 2000, 65535, U32], [1, 3, 1000]
+    Vs.append(rnd.randrange(3, 32767))
+    if not ctx.quick:
+        As.append(rnd.randrange(3, 1 << 17))
+        Gs.append(rnd.randrange(4, 1 << 16))
+    return dedupe(Vs), dedupe(As), dedupe(Gs), sw
+
+
 def prev_values(V, quick):
     c = [0, V, -V, 1, -1, V - 1, 1 - V] if not quick else \
         [0, V, -V, 1, 1 - V]
@@ -251,6 +578,14 @@ def distances(G, A, V, W, quick):
     return dedupe(ds)
 
 
+def matrix_distances(G, A, V, W):
+    ds = []
+    for th in (W + A, W - A, V, -V, 0):
+        q = th // G
+        ds += [q, q + 1]
+    return dedupe(ds + [-1, 70000, -70000])
+
+
 def decompositions(D, lo, hi, quick):
     """(target, position) pairs with target - position == D, target a u32,
     position within the encoder's range"""
@@ -275,13 +610,26 @@ def in_precondition(G, T, P, A, V, W):
 
 
 # ------------------------------------------------------------ work
-def judge(rig, vec, res, kernel_check=False, paths=None):
-    G, T, P, A, V, W, lo, hi, en = vec
+def _report(res, case, kind, e, o, kf, note):
+    seen = res.__dict__.setdefault("_c26_sigs", {})
+    sig = core.digest([kind, e.split(" (")[0][:60]
+                       if kind not in ("law", "frame") else kind, str(kf)])
+    res.count("wrong_results")
+    # keep a few reproducers per signature and worker chunk, count all
+    seen[sig] = seen.get(sig, 0) + 1
+    if seen[sig] > 3:
+        res.count("violations_not_stored_same_signature")
+        return
+    res.violation(case, e, o, kf=kf, sig=sig, note=note)
+
+
+def judge(rig, vecs, res, kernel_check=False, paths=None):
+    """vecs: one input vector per Motor of the rig"""
+    vecs = [tuple(v) for v in vecs]
     res.count("evaluations")
-    case = dict(config=rig.name, gain=G, target=T, position=P, acc=A,
-                vmax=V, prev=W, low=lo, high=hi, enable=en)
+    case = dict(config=rig.name, vectors=[list(v) for v in vecs])
     try:
-        out, f0, f1, path = rig.run(vec, trace=paths is not None)
+        outs, f0, f1, path = rig.run(vecs, trace=paths is not None)
     except bpfvm.Trap as t:
         res.violation(case, "program runs", str(t),
                       sig=core.digest(["trap", str(t)[:40]]),
@@ -290,57 +638,65 @@ def judge(rig, vec, res, kernel_check=False, paths=None):
     if paths is not None:
         paths.add(path)
     if kernel_check:
-        ret, kout = rig.run_real(vec)
+        ret, kout = rig.run_real(vecs)
         res.count("kernel_validated")
         if ret != bpfvm.XDP_TX or kout != bytes(f1):
             raise core.Internal(f"VM/kernel disagreement on {case}: "
                                 f"vm={bytes(f1).hex()} kernel={kout.hex()}")
-    if not in_precondition(G, T, P, A, V, W):
-        res.count("outside_precondition")
-        res.outcomes.add("outside precondition")
-        return
-    exp = law(G, T, P, A, V, W, lo, hi)
-    res.nontrivial.add(core.digest([rig.name, vec], 10))
-    desired = G * (T - P)
-    shape = ("acc+" if desired > W + A else "acc-" if desired < W - A
-             else "free",
-             "vel" if abs(min(max(desired, W - A), W + A)) > V else "in",
-             "stop" if exp == 0 and (lo or hi) else "go")
-    wrong = []
-    if out != exp:
-        wrong.append(("law", f"velocity {exp}", f"velocity {out}"))
-    for c in consequences(out, A, V, W, lo, hi):
-        wrong.append(("consequence", "holds: " + c.replace("command ", "no "),
-                      f"{c} (velocity {out}, previous {W})"))
-    changed = [i for i in range(len(f0)) if f0[i] != f1[i]
-               and i not in (rig.vel_pos, rig.vel_pos + 1, rig.en_pos)]
-    cmd_wkc = {c + fastsim.ETH for c, _, _, _ in rig.group.writers()} | \
-        {w + fastsim.ETH + d for _, w, _, _ in rig.group.writers()
-         for d in (0, 1)}
-    if [i for i in changed if i not in cmd_wkc]:
-        res.count("other_frame_bytes_changed")
-    if not wrong:
-        res.outcomes.add(("ok",) + shape)
-        return
-    kf = None
-    if out == law(G, T, P, A, V, W, lo, hi, wrap16=True):
-        v1 = min(max(desired, W - A), W + A)
-        if not -32768 <= v1 <= 32767:
-            kf = KF_WRAP
-    res.outcomes.add(("wrong", str(kf)) + shape)
-    seen = res.__dict__.setdefault("_c26_sigs", {})
-    for kind, e, o in wrong:
-        sig = core.digest([kind, e.split(" (")[0][:60]
-                           if kind != "law" else "law", str(kf)])
-        res.count("wrong_results")
-        # keep a few reproducers per signature and worker chunk, count all
-        seen[sig] = seen.get(sig, 0) + 1
-        if seen[sig] > 3:
-            res.count("violations_not_stored_same_signature")
+    judged = 0
+    for n, (vec, out) in enumerate(zip(vecs, outs)):
+        G, T, P, A, V, W, lo, hi, en = vec
+        ch = rig.spec["channels"][n]
+        mcase = dict(case, motor=n, channel=ch, gain=G, target=T, position=P,
+                     acc=A, vmax=V, prev=W, low=lo, high=hi, enable=en)
+        if not in_precondition(G, T, P, A, V, W):
+            res.count("outside_precondition")
+            res.outcomes.add("outside precondition")
             continue
-        res.violation(dict(case, desired=desired), e, o, kf=kf, sig=sig,
-                      note=("wrong velocity" if kind == "law" else
-                            "consequence violated"))
+        judged += 1
+        exp = law(G, T, P, A, V, W, lo, hi)
+        res.nontrivial.add(core.digest([rig.name, n, vec], 10))
+        desired = G * (T - P)
+        shape = ("acc+" if desired > W + A else "acc-" if desired < W - A
+                 else "free",
+                 "vel" if abs(min(max(desired, W - A), W + A)) > V else "in",
+                 "stop" if exp == 0 and (lo or hi) else "go")
+        wrong = []
+        if out != exp:
+            wrong.append(("law", f"velocity {exp}", f"velocity {out}"))
+        for c in consequences(out, A, V, W, lo, hi):
+            wrong.append(("consequence",
+                          "holds: " + c.replace("command ", "no "),
+                          f"{c} (velocity {out}, previous {W})"))
+        if not wrong:
+            res.outcomes.add(("ok",) + shape)
+            continue
+        kf = None
+        if out == law(G, T, P, A, V, W, lo, hi, wrap16=True):
+            v1 = min(max(desired, W - A), W + A)
+            if not -32768 <= v1 <= 32767:
+                kf = KF_WRAP
+        res.outcomes.add(("wrong", str(kf)) + shape)
+        where = (f" in the velocity word of channel {ch} of the "
+                 f"{rig.spec['motor'].upper()}")
+        for kind, e, o in wrong:
+            _report(res, dict(mcase, desired=desired), kind, e,
+                    o + (where if kind == "law" else ""), kf,
+                    "wrong velocity" if kind == "law" else
+                    "consequence violated")
+    # the frame condition: nobody else's outputs are touched
+    outs_changed, others = rig.foreign_changes(f0, f1)
+    if others:
+        res.count("other_frame_bytes_changed")
+    if outs_changed and judged:
+        i = outs_changed[0]
+        _report(res, dict(case, changed=outs_changed), "frame",
+                "every output byte that is not the velocity word / enable "
+                "bit of a Motor's channel unchanged",
+                f"{rig.where(i)} changed from {f0[i]:#04x} to {f1[i]:#04x}"
+                + (f" (and {len(outs_changed) - 1} more)"
+                   if len(outs_changed) > 1 else ""),
+                None, "output data outside the Motor's channel changed")
 
 
 _RIGS = {}
@@ -361,9 +717,27 @@ def get_rig(name):
     return r
 
 
+def _rig_or_report(name, res):
+    """the rig, or None after reporting that the frame of the configuration
+    does not contain the process data where the terminals expect them"""
+    try:
+        return get_rig(name)
+    except LayoutProblem as e:
+        res.count("evaluations")
+        res.violation(dict(config=name), "the process data of every terminal "
+                      "of the group are in a datagram the terminal reacts to",
+                      str(e), sig=core.digest(["layout", name.split("|")[0]]),
+                      note="process data not in the frame")
+        return None
+
+
 def work(item, res):
+    if item[0] == "matrix":
+        return work_matrix(item, res)
     name, V, A, G, sws, quick, kevery = item
-    rig = get_rig(name)
+    rig = _rig_or_report(name, res)
+    if rig is None:
+        return
     lo_, hi_ = rig.enc_range()
     paths = set()
     n = 0
@@ -372,13 +746,13 @@ def work(item, res):
             for T, P in decompositions(D, lo_, hi_, quick):
                 for lo, hi, en in sws:
                     n += 1
-                    judge(rig, (G, T, P, A, V, W, lo, hi, en), res,
+                    judge(rig, [(G, T, P, A, V, W, lo, hi, en)], res,
                           kernel_check=rig.rrig is not None
                           and n % kevery == 0, paths=paths)
     # outside the precondition (counted, not judged): limit beyond the
     # output's range, previous velocity beyond the limit
     for V2, W2 in ((32768, 0), (65535, 7), (V, min(V + 1, 32767))):
-        judge(rig, (G, 5, 2, A, V2, W2, 0, 0, 1), res, paths=paths)
+        judge(rig, [(G, 5, 2, A, V2, W2, 0, 0, 1)], res, paths=paths)
     res.cov.setdefault("paths", set()).update(
         (name, core.digest(p, 10)) for p in paths)
     res.cov.setdefault("branch_outcomes", set()).update(
@@ -387,6 +761,39 @@ def work(item, res):
                                and rig.group.insns[a][0] == 0x18))
     res.cov.setdefault("branch_fallthrough", set()).update(
         (name, a) for p in paths for a, b in zip(p, p[1:]) if b == a + 1)
+
+
+def work_matrix(item, res):
+    """one configuration of the matrix with the reduced alphabet; a group
+    with two Motors gets, for the second one, the vector the first one had
+    before (so both channels see the whole alphabet, with different values
+    at the same time)"""
+    _, name, Vs, As, Gs, sws, kevery = item
+    rig = _rig_or_report(name, res)
+    if rig is None:
+        return
+    lo_, hi_ = rig.enc_range()
+    nm = len(rig.motors)
+    hist = [(2, 5000, 1000, 50, 3000, 700, 0, 0, 1)] * (nm - 1)
+    n = 0
+    for V in Vs:
+        for A in As:
+            for G in Gs:
+                for W in dedupe([0, V, 1 - V]):
+                    for D in matrix_distances(G, A, V, W):
+                        tp = decompositions(D, lo_, hi_, True)
+                        if not tp:      # not reachable with this encoder
+                            continue
+                        T, P = tp[0]
+                        for lo, hi, en in sws:
+                            n += 1
+                            vec = (G, T, P, A, V, W, lo, hi, en)
+                            judge(rig, [vec] + hist, res,
+                                  kernel_check=rig.rrig is not None
+                                  and n % kevery == 0)
+                            if nm > 1:
+                                hist = ([vec] + hist)[:nm - 1]
+    res.cov.setdefault("matrix_configs_run", set()).add(name)
 
 
 def cond_branches(rig):
@@ -403,7 +810,7 @@ def cond_branches(rig):
 
 def run(ctx):
     Vs, As, Gs, sw = alphabets(ctx)
-    names = list(Rig.CONFIGS)[:2] if ctx.quick else list(Rig.CONFIGS)
+    names = list(MAIN)[:2] if ctx.quick else list(MAIN)
     kevery = 53
     items = [(name, V, A, G, sw, ctx.quick, kevery)
              for name in names[:2] for V in Vs for A in As for G in Gs]
@@ -413,6 +820,9 @@ def run(ctx):
         qV, qA, qG, qsw = alphabets(qctx)
         items += [(name, V, A, G, qsw, True, kevery)
                   for name in names[2:] for V in qV for A in qA for G in qG]
+    mV, mA, mG, msw = matrix_alphabets(ctx)
+    matrix = list(matrix_configs())
+    items += [("matrix", name, mV, mA, mG, msw, kevery) for name in matrix]
     res = core.pmap(ctx, work, items, chunk=2)
     res.cov["states"] = len(res.nontrivial)
     res.cov["transitions"] = res.cov.get("evaluations", 0)
@@ -422,7 +832,11 @@ def run(ctx):
     taken = res.cov.pop("branch_outcomes", set())
     fall = res.cov.pop("branch_fallthrough", set())
     per = {}
+    broken = {v["case"]["config"] for v in res.violations
+              if v["note"] == "process data not in the frame"}
     for name in names:
+        if name in broken:
+            continue
         rig = get_rig(name)
         br = cond_branches(rig)
         both = [b for b in br
@@ -436,36 +850,75 @@ def run(ctx):
             raise core.Internal(
                 f"alphabet too weak: conditional branches {missing} of "
                 f"Motor.program ({name}) were not taken both ways")
+    ran = res.cov.pop("matrix_configs_run", set())
+    if set(matrix) - ran - broken:
+        raise core.Internal("matrix configurations not run: "
+                            f"{sorted(set(matrix) - ran - broken)}")
     res.cov["paths_covered"] = len(paths)
     res.cov["path_coverage"] = per
     res.cov["alphabet"] = dict(vmax=len(Vs), acc=len(As), gain=len(Gs),
                                switches_enable=len(sw), configs=names)
+    res.cov["matrix"] = dict(configs=len(matrix), vmax=len(mV), acc=len(mA),
+                             gain=len(mG), switches_enable=len(msw),
+                             names=matrix)
     res.sample(dict(config=names[0], gain=1, target=40000, position=0,
                     acc=40000, vmax=1000, prev=0, low=0, high=0))
+    res.sample(dict(config=matrix[-1], note="two Motors, one per channel of "
+                    "an EL7332, encoders on the two channels of an EL5042, "
+                    "an EL4104 before and an EK1814 behind"))
     res.assumptions += [
         "inputs are bit-vectors read in the formats the code declares: "
         "target, gain, acceleration limit, velocity limit are DeviceVar 'I' "
         "(unsigned 32 bit), the position is the encoder variable's format "
-        "('i' step counter / 'q' position), the previous velocity is the "
-        "16-bit 'h' output as found in the frame; desired = gain * (target - "
-        "position) over the integers, required to fit a signed 64-bit value",
+        "('i' step counter of the EL7041 / 'q' position of an EL5042 "
+        "channel), the previous velocity is the 16-bit 'h' output as found "
+        "in the frame; desired = gain * (target - position) over the "
+        "integers, required to fit a signed 64-bit value",
         "preconditions: 0 <= velocity limit <= 32767, |previous velocity| <= "
         "velocity limit; cases outside are run and counted only",
         "'except to stop' = the commanded velocity is 0",
-        "the enable bit and everything else in the frame is not judged "
-        "(the statement is about the velocity command)",
+        "'the bundled motor terminal's 16-bit velocity output': the terminal "
+        "classes of ebpfcat/terminals.py whose velocity is declared 'h' - "
+        "EL7041 and the two channels of the EL7332; the EL7062 (32-bit 'i' "
+        "velocity) is outside the statement's quantifier and not run",
+        "a terminal's process data are where the terminal takes them from: "
+        "the data of the FPRD / FPWR datagram addressed to its position and "
+        "sync manager address (use_fmmu False), or the logical datagram's "
+        "bytes at the logical address its FMMU is given (fmmu_maps); a PDO "
+        "entry is at the byte/bit the terminal's PDO table says, with the "
+        "object index of the Motor's channel computed by the harness "
+        "(0x10 per channel); which digital input is the low / high switch "
+        "is the terminal class's documented choice (EL7041: 0xd / 0xc, "
+        "EL7332: 0xc / 0xd)",
+        "'writes the desired velocity' includes: into the velocity word of "
+        "the channel the Motor is linked to and nowhere else in the output "
+        "data of the frame - every other output byte (other channel, other "
+        "terminals, unused bits) must be unchanged; the enable bit of the "
+        "Motor's channel may change and its value is not judged; changes "
+        "of input data and padding are counted only",
+        "the other terminals of a group (EL4104 before, EK1814 behind) are "
+        "linked to devices that only read (AnalogInput, DigitalInput), so "
+        "the group program has no business writing their outputs",
     ]
     return res
 
 
 def replay(ctx, rep):
     c = rep["case"]
-    rig = get_rig(c["config"])
     res = core.Result()
-    vec = (c["gain"], c["target"], c["position"], c["acc"], c["vmax"],
-           c["prev"], c["low"], c["high"], c["enable"])
-    judge(rig, vec, res, kernel_check=rig.rrig is not None)
-    out = rig.run(vec)[0]
-    print(f"  config={c['config']} desired={c['gain'] * (c['target'] - c['position'])} "
-          f"law={law(*vec[:8])} program={out}")
+    rig = _rig_or_report(c["config"], res)
+    if rig is None:
+        return res.violations
+    if "vectors" in c:
+        vecs = [tuple(v) for v in c["vectors"]]
+    else:       # reports written before the configuration matrix existed
+        vecs = [(c["gain"], c["target"], c["position"], c["acc"], c["vmax"],
+                 c["prev"], c["low"], c["high"], c["enable"])]
+    judge(rig, vecs, res, kernel_check=rig.rrig is not None)
+    outs = rig.run(vecs)[0]
+    for n, (vec, out) in enumerate(zip(vecs, outs)):
+        print(f"  config={c['config']} motor {n} (channel "
+              f"{rig.spec['channels'][n]}) desired="
+              f"{vec[0] * (vec[1] - vec[2])} law={law(*vec[:8])} "
+              f"program={out}")
     return res.violations
